@@ -122,6 +122,8 @@ def tleaves : Ty → List TLeaf
   | .map k v => tpre .key (tleaves k) ++ tpre .mval (tleaves v)
   | .union ts => tleavesU ts
   | .named _ t => tleaves t
+  | .enum _ => [([], idEnum)]
+  | .error _ => [([], idError)]
 def tleavesF : Fields → List TLeaf
   | .nil => []
   | .cons n t r => tpre (.fld n) (tleaves t) ++ tleavesF r
